@@ -398,6 +398,16 @@ func RunDownload(sw *Swarm, rng *rand.Rand, o DownloadOpts) (tr *Tor, stats map[
 				pi = int(out[rng.IntN(len(out))].Index)
 				stats["push-all-outstanding-piece"]++
 			}
+			if r.Opt.Fast && rng.IntN(3) == 0 {
+				// the same with rejects instead of data: late rejects for requests storrent has long given up and
+				// commanded anew (they sit in the queue again), rejects for blocks never asked for
+				for b := 0; b < g.BlocksIn(pi); b++ {
+					r.Send(refwire.Msg{Kind: refwire.KReject, Index: uint32(pi), Begin: uint32(b * fixture.Block), Length: uint32(g.BlockLen(pi, b))})
+				}
+				sw.Tag("rejected-all")
+				stats["reject-all"]++
+				break
+			}
 			for b := 0; b < g.BlocksIn(pi); b++ {
 				off := int64(pi)*int64(g.PieceLen) + int64(b*fixture.Block)
 				r.Send(refwire.Msg{Kind: refwire.KPiece, Index: uint32(pi), Begin: uint32(b * fixture.Block), Data: g.Truth(off, g.BlockLen(pi, b))})
